@@ -149,6 +149,12 @@ class Program:
                     mod.classes[node.name] = ci
                 for st in node.body:
                     if isinstance(st, (ast.FunctionDef, ast.AsyncFunctionDef)):
+                        role = [d.attr for d in st.decorator_list if isinstance(d, ast.Attribute) and d.attr in ('setter', 'deleter')]
+                        if role:
+                            # @name.setter / @name.deleter: the same name defined again; kept beside the getter
+                            fi = add_func(st, qual + '.' + st.name + '.' + role[0], ci, parent)
+                            ci.methods[st.name + '.' + role[0]] = fi
+                            continue
                         fi = add_func(st, qual + '.' + st.name, ci, parent)
                         ci.methods[st.name] = fi
                     elif isinstance(st, ast.Assign) and len(st.targets) == 1 and \
